@@ -235,6 +235,44 @@ def make_symbolic(spec, name, reg, st):
                                           none_if=(isnone(kt) if optional else None))
                     return cache[key]
                 return SSeq(n, elem, 'obj', name)
+            if isinstance(kind, tuple) and kind[0] in ('tuple', 'opt') or kind in ('slice', 'slice2'):
+                # sequence of tuples / slices / optionals of those: one uninterpreted function of
+                # the position per scalar leaf
+                from .values import SOpt
+                uid = id(n)
+                ufs = {}
+
+                def leaf(path, sort, k):
+                    if path not in ufs:
+                        ufs[path] = z3.Function(f'{name}{path}!{uid}', z3.IntSort(), sort)
+                    return ufs[path](k)
+
+                def build(kd, path, k):
+                    if kd in ('int', 'nat'):
+                        return leaf(path, z3.IntSort(), k)
+                    if kd == 'real':
+                        return leaf(path, z3.RealSort(), k)
+                    if kd == 'bool':
+                        return leaf(path, z3.BoolSort(), k)
+                    if kd == 'slice':
+                        return SSlice(leaf(path + '.start', z3.IntSort(), k),
+                                      leaf(path + '.stop', z3.IntSort(), k), None)
+                    if kd == 'slice2':
+                        return (build('slice', path + '[0]', k), build('slice', path + '[1]', k))
+                    if isinstance(kd, tuple) and kd[0] == 'tuple':
+                        return tuple(build(t, f'{path}[{i}]', k) for i, t in enumerate(kd[1:]))
+                    if isinstance(kd, tuple) and kd[0] == 'opt':
+                        return SOpt(build(kd[1], path, k), leaf(path + '.isnone', z3.BoolSort(), k))
+                    raise Unsupported(f'sequence element kind {kd!r}')
+                cache = {}
+
+                def elem(k):
+                    kt = _int(k)
+                    key = kt.get_id() if hasattr(kt, 'get_id') else kt
+                    if key not in cache:
+                        cache[key] = build(kind, '', kt)
+                    return cache[key]
+                return SSeq(n, elem, 'obj', name)
             raise Unsupported('sequence of this element kind')
         if tag == 'arr':       # ('arr', ndim, kind[, flags])
             nd, kind = spec[1], spec[2]
@@ -273,6 +311,9 @@ def make_symbolic(spec, name, reg, st):
                                   for f, t in spec[2].items()})
         if tag == 'opt':        # ('opt', 'Record'): a record or None (symbolic which)
             v = make_symbolic(spec[1], name, reg, st)
+            if not isinstance(v, SObj):
+                from .values import SOpt
+                return SOpt(v, z3.Bool(f'{name}.isnone!{id(v)}'))
             v.none_if = z3.Bool(f'{name}.isnone!{id(v)}')
             return v
         if tag == 'dict':       # ('dict', {key: spec}): a dict / table with these string keys
